@@ -991,7 +991,7 @@ Inductive ev :=
 | EListen (slot h a port : N) | EConnect (slot h a port : N) | EPollConnect (slot : N) | ECancel (slot : N)
 | EAccept (lslot nslot : N) | EWrite (slot : N) (bs : list N) | ERead (slot n : N) | EPeek (slot n : N)
 | EShutdown (slot : N) | EClose (slot : N) | EAddrs (slot : N)
-| EEgress | EDeliver (k : N) | EDrop (k : N) | EDup (k : N)
+| EEgress | EDeliver (k : N) | EDrop (k : N) | EDup (k : N) | EFlush
 | ENetstat (h : N) | ECounts (h : N)
 | EUdpBind (slot h a port : N) | EUdpSend (slot n a port : N).
 
@@ -1174,6 +1174,9 @@ Definition step (w : world) (e : ev) : world * obs :=
       | Some p => (fabric_deliver w p, [0] :: enc_packet p)
       | None => (w, o_none)
       end
+  | EFlush =>
+      let ps := wire w in
+      (fold_left fabric_deliver ps (set_wire w []), [0] :: flat_map enc_packet ps)
   | ENetstat h => match get_host w h with Some k => (w, [0] :: netstat k) | None => (w, o_none) end
   | ECounts h => match get_host w h with Some k => (w, [0 :: table_counts k]) | None => (w, o_none) end
   | EUdpBind slot h a port =>
